@@ -57,6 +57,7 @@ class Tracker:
         self.attached = []
         self.clear_code()
         self.cursec = {i: None for i in range(4)}
+        self.pending = set()        # emitters with a pending one-shot form option
         self.cc_funcs = False       # the Compiler holds functions
         self.cc_done = False        # ... and its passes already ran over them (a second finalize is API misuse, see REFINALIZE)
 
@@ -72,6 +73,12 @@ class Tracker:
     def apply(self, op):
         w = op.split()
         k = w[0]
+        if k == "opt":
+            self.pending.add(int(w[1]))
+        elif k in ("jmp", "err", "detach") and len(w) > 1:
+            self.pending.discard(int(w[1]))
+        elif k in ("reinit", "reset"):
+            self.pending = set()
         if k == "world":
             self.world()
         elif k == "init":
@@ -149,7 +156,8 @@ def gen_code_ops(rng, tr, n, modelled=True, allow_err=False):
             l = rng.choice(usable)
             if kind == "cmp" and not modelled:
                 continue
-            if rng.random() < 0.35:
+            if rng.random() < 0.35 and i not in tr.pending:
+                # never both form options at once: a refused jmp then writes a stray REX byte past the cursor (C14's concern)
                 emit("opt %d %s" % (i, rng.choice("sl")))
                 if rng.random() < 0.15:
                     continue                      # leave the one-shot option pending on purpose
@@ -372,6 +380,7 @@ def run(res):
     ]
 
     # -- L2a translator -----------------------------------------------------------------------------
+    data = None
     try:
         data = generate()
         res.coverage["records_in_reset_map"] = len(data.get("records", {})) if isinstance(data, dict) else None
@@ -389,6 +398,14 @@ def run(res):
         for ft in getattr(res, "build_failures", []) or [{"decl": "?", "msg": out[-800:]}]:
             broken.append("theorem %s (%s:%s) no longer checks: %s" % (ft.get("decl"), ft.get("file"), ft.get("line"), ft.get("msg")))
         vlib.lake_build(["vdriver"])
+        try:   # name the members the structural theorems stumble over (diagnostic mirror of the Lean analysis)
+            import ast_fields
+            diag = ast_fields.diagnose(data, (vlib.LEAN / "AsmjitVerif/Props/C16Fields.lean").read_text())
+            named = sorted({"%s::%s (%s)" % (c, f, how) for lst in diag.values() for (c, f, how) in lst})
+            if named:
+                broken.append("members not re-initialised on a recycle path: " + ", ".join(named)[:600])
+        except Exception:
+            pass
     if not vlib.driver_path().exists():
         res.violation("Lean driver does not build", {"log": out[-3000:]}, found_input=False, key="driver")
         return
